@@ -2,11 +2,15 @@
    and board/zobrist.go (calculateHash): a line-by-line transliteration.  Definitions only.
 
    Fixed-width arithmetic is written out: bitboards and hashes are 64-bit words on N (Base/Bits.v),
-   the halfmove clock is Go's int16 (wrap16), the reverse token is a uint64 with the field layout
-   of the Go constants.  The Zobrist tables are an argument [z : zobrist], so that theorems hold for
-   arbitrary tables; Gen/Zobrist.v supplies the engine's tables for execution. *)
+   the halfmove clock is Go's int16 (wrap16), the reverse token is an unsigned word whose width and
+   field layout are a parameter [l : tok_layout] (Model/TokLayout.v) of make_l / undo_l /
+   make_null_l / undo_null_l, so that theorems hold for every sound layout; [make], [undo],
+   [make_null], [undo_null] are these functions at the layout the source has now ([gen_layout],
+   Gen/TokLayout.v, regenerated on every run).  The Zobrist tables are an argument [z : zobrist], so
+   that theorems hold for arbitrary tables; Gen/Zobrist.v supplies the engine's tables for execution. *)
 From Coq Require Import NArith ZArith List Bool.
 From Chess3 Require Import Base.Bits Base.Word Model.Types Model.Att Model.BoardDef.
+From Chess3 Require Export Model.TokLayout Gen.TokLayout.
 Import ListNotations.
 Open Scope N_scope.
 
@@ -18,28 +22,33 @@ Record zobrist := mkZobrist {
 }.
 
 (* ------------------------------------------------------------------------------------------ *)
-(* reverse token (type Reverse uint64) *)
+(* reverse token (type Reverse uintW, W = l_bits l)
 
-Definition fiftyCntMask : N := 281470681743360.       (* 0x0000ffff00000000 *)
-Definition fiftyCntShift : N := 32.
-Definition castlingChangeMask : N := 3840.            (* 0x0000000000000f00 *)
-Definition castlingChangeShift : N := 8.
-Definition epChangeMask : N := 258048.                (* 0x000000000003f000 *)
-Definition epChangeShift : N := 12.
-Definition captureMask : N := 1835008.                (* 0x00000000001c0000 *)
-Definition captureShift : N := 18.
+   setX:  r = (r & ^mask) | Reverse(x)<<shift       (arithmetic of the W-bit unsigned type)
+   X():   T((r & mask) >> shift)                    (T = int16 / Castles(uint8) / Square(int8) / Piece(uint8)) *)
 
-(* Reverse(uint16(fc)) << 32 *)
-Definition tok_set_fifty (r : N) (fc : Z) : N :=
-  bor (bandn r fiftyCntMask) (shl (Z.to_N (trunc16 fc)) fiftyCntShift).
-(* int16((r & mask) >> 32) *)
-Definition tok_fifty (r : N) : Z := wrap16 (Z.of_N (shr (band r fiftyCntMask) fiftyCntShift)).
-Definition tok_set_castling (r c : N) : N := bor (bandn r castlingChangeMask) (shl c castlingChangeShift).
-Definition tok_castling (r : N) : N := N.land (shr (band r castlingChangeMask) castlingChangeShift) 255.
-Definition tok_set_ep (r e : N) : N := bor (bandn r epChangeMask) (shl e epChangeShift).
-Definition tok_ep (r : N) : N := shr (band r epChangeMask) epChangeShift.
-Definition tok_set_capture (r p : N) : N := bor (bandn r captureMask) (shl p captureShift).
-Definition tok_capture (r : N) : N := shr (band r captureMask) captureShift.
+(* x << k in the token's type *)
+Definition tok_shl (l : tok_layout) (x k : N) : N := N.land (N.shiftl x k) (N.ones (l_bits l)).
+
+(* Reverse(uint16(fc)) << shift *)
+Definition tok_set_fifty (l : tok_layout) (r : N) (fc : Z) : N :=
+  bor (bandn r (l_fifty_mask l)) (tok_shl l (Z.to_N (trunc16 fc)) (l_fifty_shift l)).
+(* int16((r & mask) >> shift) *)
+Definition tok_fifty (l : tok_layout) (r : N) : Z :=
+  wrap16 (Z.of_N (shr (band r (l_fifty_mask l)) (l_fifty_shift l))).
+Definition tok_set_castling (l : tok_layout) (r c : N) : N :=
+  bor (bandn r (l_castling_mask l)) (tok_shl l c (l_castling_shift l)).
+Definition tok_castling (l : tok_layout) (r : N) : N :=
+  N.land (shr (band r (l_castling_mask l)) (l_castling_shift l)) 255.
+Definition tok_set_ep (l : tok_layout) (r e : N) : N :=
+  bor (bandn r (l_ep_mask l)) (tok_shl l e (l_ep_shift l)).
+(* Square is int8: the conversion is the identity below 128, which is all a field of a sound layout
+   ever holds (the xor of two squares) *)
+Definition tok_ep (l : tok_layout) (r : N) : N := shr (band r (l_ep_mask l)) (l_ep_shift l).
+Definition tok_set_capture (l : tok_layout) (r p : N) : N :=
+  bor (bandn r (l_capture_mask l)) (tok_shl l p (l_capture_shift l)).
+Definition tok_capture (l : tok_layout) (r : N) : N :=
+  N.land (shr (band r (l_capture_mask l)) (l_capture_shift l)) 255.
 
 (* ------------------------------------------------------------------------------------------ *)
 (* addPiece / removePiece: return the board and the hash delta *)
@@ -121,7 +130,7 @@ Definition castle_rook (from to : N) : option (N * N) :=
   else if (from =? E8) && (to =? C8) then Some (A8, D8)
   else None.
 
-Definition make (z : zobrist) (b : board) (m : N) : board * N :=
+Definition make_l (l : tok_layout) (z : zobrist) (b : board) (m : N) : board * N :=
   let from := mv_from m in
   let to := mv_to m in
   let me := stm b in
@@ -132,12 +141,12 @@ Definition make (z : zobrist) (b : board) (m : N) : board * N :=
   let csq := capture_sq b m in
   let capture := piece_at b csq in
   let change := bxor (castles b) (new_castles b m) in
-  let r := tok_set_fifty 0 (fifty b) in
+  let r := tok_set_fifty l 0 (fifty b) in
   let fifty' := if (piece =? Pawn) || negb (capture =? NoPiece) then 0%Z else wrap16 (fifty b + 1) in
   let hash := bxor hash (castle_hash z change) in
   let castles' := bxor (castles b) change in
-  let r := tok_set_castling r change in
-  let r := tok_set_capture r capture in
+  let r := tok_set_castling l r change in
+  let r := tok_set_capture l r capture in
   let put := if negb (mv_promo m =? NoPiece) then mv_promo m else piece in
   let b0 := set_castles (set_fifty (set_full b full') fifty') castles' in
   let '(b1, h1) := remove_piece z b0 (flip me) capture csq in
@@ -147,7 +156,7 @@ Definition make (z : zobrist) (b : board) (m : N) : board * N :=
   let hash := if negb (ep b =? 0) then bxor hash (z_ep z (sq_file (ep b))) else hash in
   let new_ep := if can_ep then (from + to) / 2 else 0 in
   let hash := if can_ep then bxor hash (z_ep z (sq_file new_ep)) else hash in
-  let r := tok_set_ep r (bxor (ep b) new_ep) in
+  let r := tok_set_ep l r (bxor (ep b) new_ep) in
   let b4 := set_ep b3 new_ep in
   let '(b5, hash) :=
     if piece =? King then
@@ -163,7 +172,7 @@ Definition make (z : zobrist) (b : board) (m : N) : board * N :=
   let hash := bxor hash (z_stm z) in
   (set_hashes b6 (hash :: hashes b6), r).
 
-Definition undo (z : zobrist) (b : board) (m r : N) : board :=
+Definition undo_l (l : tok_layout) (z : zobrist) (b : board) (m r : N) : board :=
   let from := mv_from m in
   let to := mv_to m in
   let b0 := set_hashes b (tl (hashes b)) in
@@ -178,27 +187,33 @@ Definition undo (z : zobrist) (b : board) (m r : N) : board :=
       | None => b1
       end
     else b1 in
-  let b3 := set_ep b2 (bxor (ep b2) (tok_ep r)) in
+  let b3 := set_ep b2 (bxor (ep b2) (tok_ep l r)) in
   let b4 := fst (remove_piece z b3 me rm_piece to) in
   let b5 := fst (add_piece z b4 me piece from) in
-  let b6 := fst (add_piece z b5 (flip me) (tok_capture r) (capture_sq b5 m)) in
-  let b7 := set_castles b6 (bxor (castles b6) (tok_castling r)) in
-  let b8 := set_fifty b7 (tok_fifty r) in
+  let b6 := fst (add_piece z b5 (flip me) (tok_capture l r) (capture_sq b5 m)) in
+  let b7 := set_castles b6 (bxor (castles b6) (tok_castling l r)) in
+  let b8 := set_fifty b7 (tok_fifty l r) in
   set_full b8 (full b8 - Z.of_N (cix me))%Z.
 
-Definition make_null (z : zobrist) (b : board) : board * N :=
+Definition make_null_l (l : tok_layout) (z : zobrist) (b : board) : board * N :=
   let hash := cur_hash b in
   let '(r, hash, b1) :=
-    if negb (ep b =? 0) then (tok_set_ep 0 (ep b), bxor hash (z_ep z (sq_file (ep b))), set_ep b 0)
+    if negb (ep b =? 0) then (tok_set_ep l 0 (ep b), bxor hash (z_ep z (sq_file (ep b))), set_ep b 0)
     else (0, hash, b) in
   let b2 := set_stm b1 (flip (stm b1)) in
   let hash := bxor hash (z_stm z) in
   (set_hashes b2 (hash :: hashes b2), r).
 
-Definition undo_null (b : board) (r : N) : board :=
+Definition undo_null_l (l : tok_layout) (b : board) (r : N) : board :=
   let b1 := set_stm b (flip (stm b)) in
-  let b2 := set_ep b1 (tok_ep r) in
+  let b2 := set_ep b1 (tok_ep l r) in
   set_hashes b2 (tl (hashes b2)).
+
+(* the engine as it is now: the layout regenerated from board.go *)
+Definition make : zobrist -> board -> N -> board * N := make_l gen_layout.
+Definition undo : zobrist -> board -> N -> N -> board := undo_l gen_layout.
+Definition make_null : zobrist -> board -> board * N := make_null_l gen_layout.
+Definition undo_null : board -> N -> board := undo_null_l gen_layout.
 
 (* ------------------------------------------------------------------------------------------ *)
 (* calculateHash, ResetHash *)
